@@ -93,6 +93,21 @@ func (p *propC10) Prepare(seed uint64, tier string) int {
 		// valid frame that Decode rejects is reported by the scenarios (rejects-valid)
 		p.pool = append(p.pool, poolEntry{Name: fmt.Sprintf("model%d", i), Bytes: b, Med: Medium{Records: rs}, FT: ft})
 	}
+	// records with 70-110 bytes of developer data each (paths that skip rather than
+	// parse, across every read boundary)
+	for i := 0; i < 2; i++ {
+		r := NewRng(seed, "C10/dev", i)
+		n := r.Range(70, 110)
+		rs := &RecStream{Header: HeaderSpec{Size: 12 + 2*i, Proto: 0x20, Profile: 2115, HCRC: "ok"}, Ops: []Op{
+			{Def: &DefOp{Local: 0, Arch: "le", Global: 0, Fields: [][3]int{{0, 1, 0}}}},
+			{Data: &DataOp{Local: 0, Bytes: "04"}},
+			{Def: &DefOp{Local: 1, Arch: []string{"le", "be"}[i], Global: 20, Fields: [][3]int{{3, 1, 2}}, Dev: [][3]int{{0, n, 0}, {1, 4, 0}}}},
+			{Data: &DataOp{Local: 1, Bytes: "50" + hexs(r.Bytes(n+4))}},
+			{Data: &DataOp{Local: 1, Bytes: "51" + hexs(r.Bytes(n+4))}},
+			{Data: &DataOp{Local: 1, Bytes: "52" + hexs(r.Bytes(n+4))}},
+		}}
+		p.pool = append(p.pool, poolEntry{Name: fmt.Sprintf("devdata%d", i), Bytes: rs.Build(), Med: Medium{Records: rs}, FT: 4})
+	}
 	for i, rs := range stateProbeStreams(NewRng(seed, "C10/stateprobe", 0)) {
 		b := rs.Build()
 		f := parseFrame(b, 0)
